@@ -149,12 +149,15 @@ fn @name@() {
     let e = ref_apply_set(&s, &named);
     assert!(same_features(&t, &e), "role=apply-two-features");
     if inv(&s) { assert!(t == e, "role=apply-two-features-bits"); }
-    kani::cover!(bf == BinMod::Negative && bg == BinMod::Positive && ref_feat(&s, @f@).is_none());
-    kani::cover!(bf == BinMod::Positive && bg == BinMod::Negative && ref_feat(&s, @g@).is_none());
+    @cov_f@
+    @cov_g@
     kani::cover!(bf == BinMod::Negative && bg == BinMod::Negative && t != s);
     std::mem::forget(alphas);
 }
-""", name=nm, f=f, g=g, unwind=unwind), functions=["Segment::apply_seg_mods", "Segment::set_feat", "Place::set_*"], symbolic="all bundles, both polarities",
+""", name=nm, f=f, g=g, unwind=unwind,
+            cov_f=("kani::cover!(bf == BinMod::Negative && bg == BinMod::Positive && ref_feat(&s, %d).is_none());" % f) if NODE_OF[f] >= 3 else "kani::cover!(bf == BinMod::Negative && bg == BinMod::Positive && t != s);",
+            cov_g=("kani::cover!(bf == BinMod::Positive && bg == BinMod::Negative && ref_feat(&s, %d).is_none());" % g) if NODE_OF[g] >= 3 else "kani::cover!(bf == BinMod::Positive && bg == BinMod::Negative && t != s);"),
+            functions=["Segment::apply_seg_mods", "Segment::set_feat", "Place::set_*"], symbolic="all bundles, both polarities",
             shape="[±%s, ±%s] as output" % (fname(f), fname(g)), unwind=unwind, stubs=STUBS, jobs=8))
 
     # three slots in one matrix (two of one sub-node + one of another node): the order-independent oracle again
@@ -288,7 +291,7 @@ fn @name@() {
             unwindset=UNWINDSET, stubs=STUBS, cap_s=2400, weight=5))
 
     # node alphas
-    node_shapes = [[3, 6, 4, 7][seed % 4]] if tier == "quick" else [0, 1, 2, 3, 4, 5, 6, 7]
+    node_shapes = [3, [6, 4, 7, 5][seed % 4]] if tier == "quick" else [0, 1, 2, 3, 4, 5, 6, 7]      # the whole-place alpha always; one sub-node rotating
     for ni in node_shapes:
         nd = G.NODES[ni]
         nm = "c04_alpha_node_%s" % nd.lower()
@@ -296,7 +299,10 @@ fn @name@() {
             expect = """
             assert!(r2.is_ok(), "role=unexpected-error");
             assert!(ref_sub(raw(&t.place), 0) == ref_sub(raw(&d.place), 0) && ref_sub(raw(&t.place), 1) == ref_sub(raw(&d.place), 1) && ref_sub(raw(&t.place), 2) == ref_sub(raw(&d.place), 2) && ref_sub(raw(&t.place), 3) == ref_sub(raw(&d.place), 3), "role=alpha-place-carries-all-subnodes");
-            assert!(t.root == t0.root && t.manner == t0.manner && t.laryngeal == t0.laryngeal, "role=alpha-place-frame");"""
+            assert!(t.root == t0.root && t.manner == t0.manner && t.laryngeal == t0.laryngeal, "role=alpha-place-frame");
+            // a well-formed donor's place is carried bit for bit: in particular "no place" stays `None`, never an empty `Some(0)`
+            if inv(&d) { assert!(t.place == d.place, "role=alpha-place-carries-place-bits"); }
+            kani::cover!(inv(&d) && raw(&d.place).is_none() && raw(&t0.place).is_some());"""
         elif ni < 3:
             fld = ["root", "manner", "laryngeal"][ni]
             expect = """
